@@ -1377,3 +1377,120 @@ def built_list(fn, cfg, du, nid, name):
       innermost_loop(fn.node, lp):
     return None
   return s.value.args[0], lp.target, lp.iter, lp
+
+
+def need(found, msg):
+  """A violation is reported only for a mechanism that was positively identified and seen broken;
+  when the mechanism itself cannot be found / followed, the rule cannot decide."""
+  if not found:
+    raise AnalysisError(msg)
+
+
+BUILTIN_CALLS = {"list", "tuple", "set", "frozenset", "dict", "sorted", "reversed", "enumerate",
+                 "zip", "map", "filter", "iter", "len", "bool", "type", "isinstance", "range",
+                 "min", "max", "sum", "any", "all", "str", "int", "repr", "getattr", "next"}
+
+
+def opaque_parts(w, fi, e, known=()):
+  """Sub-expressions of e (locals already expanded) that the rules cannot see through: calls of
+  something that is neither a builtin, nor a function/class of the repository named in `known` or
+  resolvable in fi's module, and bare names that are neither parameters nor module-level names.
+  An expression without opaque parts is fully understood: a mismatch is then a real mismatch."""
+  out = []
+  params = set(_all_params(fi.node))
+  mod = fi.module
+  bound = set()
+  for x in ast.walk(e):
+    if isinstance(x, ast.comprehension):
+      bound |= assigned_names(x.target)
+    elif isinstance(x, ast.Lambda):
+      bound |= set(_all_params(x))
+  callee_ids = set()
+  for x in ast.walk(e):
+    if isinstance(x, ast.Call):
+      callee_ids.add(id(x.func))
+      d = dotted(x.func)
+      if d is None:
+        if isinstance(x.func, ast.Attribute):
+          continue              # method of a computed value (d.get(k)(...)): judged by its receiver
+        if isinstance(x.func, (ast.Call, ast.Subscript)):
+          continue
+        out.append(x)
+        continue
+      last = d.split(".")[-1]
+      head = d.split(".")[0]
+      if d in BUILTIN_CALLS or last in known:
+        continue
+      if "." in d and head in params | bound | {"self"}:
+        # method call on a parameter / self: opaque unless named in `known`
+        if head == "self" and fi.cls is not None and w.repo.find_method(fi.cls, last) is not None:
+          out.append(x)         # a same-class helper that was not dissolved
+        continue
+      if d in mod.functions or d in mod.classes or head in mod.imports or head in mod.assigns \
+          or head in mod.classes:
+        continue
+      out.append(x)
+  for x in ast.walk(e):
+    if isinstance(x, ast.Name) and isinstance(x.ctx, ast.Load) and id(x) not in callee_ids:
+      if x.id in params or x.id in bound or x.id in mod.functions or x.id in mod.classes or \
+          x.id in mod.imports or x.id in mod.assigns or x.id in BUILTIN_CALLS or \
+          x.id in ("self", "True", "False", "None"):
+        continue
+      out.append(x)
+  return out
+
+
+def opaque_calls(w, fi, e):
+  """Calls inside e that the rules cannot see through (same-class helpers that were not dissolved,
+  unresolvable plain calls); names are not judged (see opaque_parts)."""
+  return [x for x in opaque_parts(w, fi, e) if isinstance(x, ast.Call)]
+
+
+def same_or_opaque(w, fn, e, want, what):
+  """Does expression e (an argument, an operand) denote `want` (normalised text)? A mismatch counts
+  only when e is fully visible; otherwise the rule cannot decide."""
+  if e is None:
+    return False
+  ex = expander(fn)
+  got = ex.norm(e)
+  if got == want:
+    return True
+  need(not opaque_parts(w, fn.fi, ex.expand(e)),
+       "%s: cannot follow `%s` (%s)" % (fn.qualname, short(e), what))
+  return False
+
+
+def opaque_tests(w, fn, cfg=None, within=None):
+  """Branch tests of fn containing calls that cannot be seen through: a path-sensitive verdict that
+  depends on what such a test establishes cannot be trusted."""
+  cfg = cfg or fn.cfg
+  ex = expander(fn)
+  out = []
+  for n in cfg.nodes:
+    if n.kind in ("if", "while") and (within is None or n.id in within):
+      if opaque_calls(w, fn.fi, ex.expand(n.stmt.test)):
+        out.append(n)
+  return out
+
+
+def undissolved(w, fn, cfg=None, within=None):
+  """Calls (anywhere in the nodes `within`, default: all) of same-class / same-module helpers that
+  the Inliner left in place although they are not role-bearing: code the rules cannot see, which may
+  contain the very step a rule is looking for."""
+  cfg = cfg or fn.cfg
+  out = []
+  fi = fn.fi
+  for n in cfg.nodes:
+    if within is not None and n.id not in within:
+      continue
+    for c in calls_in(n.exprs, into_lambda=True):
+      f = c.func
+      callee = None
+      if isinstance(f, ast.Attribute) and isinstance(f.value, ast.Name) and f.value.id == "self" \
+          and fi.cls is not None:
+        callee = w.repo.find_method(fi.cls, f.attr)
+      elif isinstance(f, ast.Name):
+        callee = fi.module.functions.get(f.id)
+      if callee is not None and callee.name not in KEEP_A and callee.qualname != fi.qualname:
+        out.append(c)
+  return out
